@@ -16,6 +16,8 @@ pub enum Breakage
     NoFilesInScope,
     MissingSourceDir,
     SourceDirIsFile,
+    /// source_dir names a regular in-scope source file
+    SourceDirIsSourceFile,
     InvalidYaml,
     MissingConfig,
 }
@@ -68,6 +70,7 @@ pub fn strategy() -> BoxedStrategy<C04Case>
         1 => Just(Breakage::NoFilesInScope),
         1 => Just(Breakage::MissingSourceDir),
         1 => Just(Breakage::SourceDirIsFile),
+        1 => Just(Breakage::SourceDirIsSourceFile),
         1 => Just(Breakage::InvalidYaml),
         1 => Just(Breakage::MissingConfig),
     ];
@@ -107,6 +110,7 @@ pub fn check(case: &C04Case) -> CaseOutcome
         Breakage::NoFilesInScope => mt.cfg.extensions = Some(vec!["zzz".to_string()]),
         Breakage::MissingSourceDir => mt.cfg.source_dir = "./does-not-exist".to_string(),
         Breakage::SourceDirIsFile => mt.cfg.source_dir = "./Breadlog.yaml".to_string(),
+        Breakage::SourceDirIsSourceFile => mt.cfg.source_dir = "./src/a.rs".to_string(),
         _ => (),
     }
     let (mut tree, rendered) = mt.render();
@@ -118,6 +122,9 @@ pub fn check(case: &C04Case) -> CaseOutcome
     {
         tree.remove("Breadlog.yaml");
     }
+    // an ordinary Rust project around it
+    tree.insert("Cargo.toml".into(), Node::File(b"[package]\nname = \"demo\"\nversion = \"0.1.0\"\nedition = \"2021\"\n".to_vec()));
+    tree.insert(".gitignore".into(), Node::File(b"/target\n".to_vec()));
     if case.extras
     {
         tree.insert("README.md".into(), Node::File(b"info!(\"readme\")\n".to_vec()));
@@ -378,7 +385,7 @@ pub fn run(env: &Env, rec: &Recorder) -> (String, Vec<&'static str>)
 {
     pbt(env, rec, "check-mode", env.cases(2500, 40_000), &strategy, &check);
     (
-        "modelled trees (1-4 files, decoys, directives) x configuration (macros, structured on/off/omitted, use_cache on/off/omitted, extensions) x lock (absent, valid, corrupt, empty, negative) x breakage (none, no files in scope, missing source dir, source dir is a file, invalid YAML, missing config) x extra entries (non-source files, symlinks to file and directory, empty dir, stale scratch files of different ages in TMPDIR and in the project, file outside the project, TMPDIR pointing at a directory that does not exist) x fault plan (none, SIGTERM/SIGINT at a generated operation, injected read-side I/O failure) x standard output (captured; one case in three also with /dev/full, a pipe without reader, or a closed descriptor - the run may then die, but not modify anything); 20 % of trees pre-edited so nothing is missing. Oracle: (1) snapshot of the whole sandbox (project, TMPDIR, cwd, outside) identical incl. mtime and inode; (2) the libc-level trace contains no mutating call on any path; (3) for a 4 % sample the same run under strace -f shows no mutating file system call either (validates the interposer's view). Non-trivial = distinct case with a missing reference, a non-default configuration point, a broken configuration or a fault plan".to_string(),
+        "modelled trees (1-4 files, decoys, directives) x configuration (macros, structured on/off/omitted, use_cache on/off/omitted, extensions) x lock (absent, valid, corrupt, empty, negative) x breakage (none, no files in scope, missing source dir, source dir is a file, source dir is an in-scope source file, invalid YAML, missing config; always inside an ordinary project with Cargo.toml and .gitignore) x extra entries (non-source files, symlinks to file and directory, empty dir, stale scratch files of different ages in TMPDIR and in the project, file outside the project, TMPDIR pointing at a directory that does not exist) x fault plan (none, SIGTERM/SIGINT at a generated operation, injected read-side I/O failure) x standard output (captured; one case in three also with /dev/full, a pipe without reader, or a closed descriptor - the run may then die, but not modify anything); 20 % of trees pre-edited so nothing is missing. Oracle: (1) snapshot of the whole sandbox (project, TMPDIR, cwd, outside) identical incl. mtime and inode; (2) the libc-level trace contains no mutating call on any path; (3) for a 4 % sample the same run under strace -f shows no mutating file system call either (validates the interposer's view). Non-trivial = distinct case with a missing reference, a non-default configuration point, a broken configuration or a fault plan".to_string(),
         vec!["the interposer sees libc-level calls of the dynamically linked build; a raw syscall() would bypass it (std and async-std use the libc wrappers)"],
     )
 }
